@@ -59,6 +59,10 @@ func (c04Format) BucketOf(nb uint32, key []byte) uint {
 	return h.BucketHash(key)
 }
 
+func (c04Format) EntryHash(domain uint32, key []byte) uint64 {
+	return EntryHash64(domain, key) & 0xffffff
+}
+
 func (c04Format) FixValue(w, variant int, raw []byte) []byte {
 	_, fs := c04FileSize(w, variant)
 	var full [8]byte
